@@ -18,7 +18,7 @@ __CPROVER_ensures(*ovf == (FB_WORD(bits) != 0 && BYTELEN24(FB_WORD(bits)) + FB_S
 uint32_t w_toBits_c(const uint8_t* x, int negative)
 __CPROVER_requires(FRESH32(x))
 __CPROVER_assigns()
-__CPROVER_ensures(RET == (TB_M(x) | (TB_N(x) << 24) | ((negative != 0 && (TB_M(x) & 0x007fffffu) != 0) ? 0x00800000u : 0u)));
+__CPROVER_ensures(RET == spec_toBits(x, negative));
 
 /* canonical compact value: what toBits can produce for a non-negative number */
 uint32_t w_roundtrip_c(uint32_t c)
